@@ -20,7 +20,7 @@ from pathlib import Path
 
 VERIF = Path(__file__).resolve().parent.parent
 LEAN = VERIF / "lean"
-EVID = VERIF / "evidence"
+EVID = Path(os.environ.get("VERIF_EVIDENCE_DIR", VERIF / "evidence"))  # override only for experiments against scratch worktrees
 REPLAYS = EVID / "replays"
 CORPUS = VERIF / "corpus"
 REPO = Path(os.environ.get("HAPTOOLS_REPO", "/repo"))
